@@ -5,6 +5,9 @@
 
 package metadata
 
+// storedGroupOK (spec/store_coord.spec) in a form with one flat quantifier (same facts; easier on the solvers as a loop invariant)
+//@ spec func pbGroupFlat(g *github.com/KafScale/platform/pkg/gen/metadata.ConsumerGroup) bool = (forall k string :: has(g.Members, k) ==> mapval(g.Members, k) != nil && allocated(mapval(g.Members, k))) && (forall k string, i int :: has(g.Members, k) && 0 <= i && i < len(mapval(g.Members, k).Assignments) ==> mapval(g.Members, k).Assignments[i] != nil && allocated(mapval(g.Members, k).Assignments[i]))
+
 // cloneConsumerGroup: a deep copy that carries EVERY field of the group and of each member (property C15 needs the
 // store to hand back what the coordinator stored, including the two timeouts), and leaves the original alone.
 // Decided: group fields, member set, every scalar member field, subscriptions element by element, number of
@@ -14,7 +17,7 @@ package metadata
 //@   merge_branches
 //@   nullable group
 //@   returns_fresh
-//@   requires group != nil ==> storedGroupOK(group)
+//@   requires group != nil ==> pbGroupFlat(group)
 //@   ensures group == nil ==> result == nil
 //@   ensures [C15.clone_copies_group_fields] group != nil ==> result != nil && result.GroupId == group.GroupId && result.State == group.State && result.ProtocolType == group.ProtocolType && result.Protocol == group.Protocol && result.Leader == group.Leader && result.GenerationId == group.GenerationId && result.RebalanceTimeoutMs == group.RebalanceTimeoutMs
 //@   ensures [C15.clone_copies_member_set] group != nil ==> result.Members != nil && (forall k string :: has(result.Members, k) == has(group.Members, k))
@@ -22,17 +25,17 @@ package metadata
 //@   ensures [C15.clone_copies_subscriptions] group != nil ==> (forall k string, j int :: has(result.Members, k) && 0 <= j && j < len(mapval(result.Members, k).Subscriptions) ==> mapval(result.Members, k).Subscriptions[j] == mapval(group.Members, k).Subscriptions[j])
 //@   ensures [C15.clone_leaves_original_alone] keepsField("github.com/KafScale/platform/pkg/gen/metadata.ConsumerGroup", "*") && keepsField("github.com/KafScale/platform/pkg/gen/metadata.GroupMember", "*") && keepsField("github.com/KafScale/platform/pkg/gen/metadata.Assignment", "*") && keepsMap("string", "*github.com/KafScale/platform/pkg/gen/metadata.GroupMember") && keepsMem("string") && keepsMem("int32") && keepsMem("*github.com/KafScale/platform/pkg/gen/metadata.Assignment")
 //@   loop 1 invariant group != nil && out != nil && fresh(out) && out.Members != nil && fresh(out.Members) && keepsField("github.com/KafScale/platform/pkg/gen/metadata.ConsumerGroup", "*") && keepsField("github.com/KafScale/platform/pkg/gen/metadata.GroupMember", "*") && keepsField("github.com/KafScale/platform/pkg/gen/metadata.Assignment", "*") && keepsMap("string", "*github.com/KafScale/platform/pkg/gen/metadata.GroupMember") && keepsMem("string") && keepsMem("int32") && keepsMem("*github.com/KafScale/platform/pkg/gen/metadata.Assignment")
-//@   loop 1 invariant storedGroupOK(group)
+//@   loop 1 invariant pbGroupFlat(group) && (forall k string :: has(group.Members, k) ==> !fresh(mapval(group.Members, k)))
 //@   loop 1 invariant forall k string :: has(out.Members, k) == seen(1, k)
 //@   loop 1 invariant forall k string :: has(out.Members, k) ==> has(group.Members, k) && mapval(out.Members, k) != nil && fresh(mapval(out.Members, k)) && mapval(out.Members, k).ClientId == mapval(group.Members, k).ClientId && mapval(out.Members, k).ClientHost == mapval(group.Members, k).ClientHost && mapval(out.Members, k).HeartbeatAt == mapval(group.Members, k).HeartbeatAt && mapval(out.Members, k).SessionTimeoutMs == mapval(group.Members, k).SessionTimeoutMs && len(mapval(out.Members, k).Subscriptions) == len(mapval(group.Members, k).Subscriptions) && len(mapval(out.Members, k).Assignments) == len(mapval(group.Members, k).Assignments)
 //@   loop 1 invariant forall k string, j int :: has(out.Members, k) && 0 <= j && j < len(mapval(out.Members, k).Subscriptions) ==> mapval(out.Members, k).Subscriptions[j] == mapval(group.Members, k).Subscriptions[j]
 //@   loop 1 invariant forall k string :: has(out.Members, k) ==> allocated(mapval(out.Members, k)) && allocated(mapval(out.Members, k).Subscriptions) && allocated(mapval(out.Members, k).Assignments)
 //@   loop 2 invariant group != nil && out != nil && fresh(out) && out.Members != nil && fresh(out.Members) && keepsField("github.com/KafScale/platform/pkg/gen/metadata.ConsumerGroup", "*") && keepsField("github.com/KafScale/platform/pkg/gen/metadata.GroupMember", "*") && keepsField("github.com/KafScale/platform/pkg/gen/metadata.Assignment", "*") && keepsMap("string", "*github.com/KafScale/platform/pkg/gen/metadata.GroupMember") && keepsMem("string") && keepsMem("int32") && keepsMem("*github.com/KafScale/platform/pkg/gen/metadata.Assignment")
-//@   loop 2 invariant storedGroupOK(group)
+//@   loop 2 invariant pbGroupFlat(group)
 //@   loop 2 invariant forall k string :: has(out.Members, k) == (seen(1, k) && k != memberID)
 //@   loop 2 invariant forall k string :: has(out.Members, k) ==> has(group.Members, k) && mapval(out.Members, k) != nil && fresh(mapval(out.Members, k)) && mapval(out.Members, k).ClientId == mapval(group.Members, k).ClientId && mapval(out.Members, k).ClientHost == mapval(group.Members, k).ClientHost && mapval(out.Members, k).HeartbeatAt == mapval(group.Members, k).HeartbeatAt && mapval(out.Members, k).SessionTimeoutMs == mapval(group.Members, k).SessionTimeoutMs && len(mapval(out.Members, k).Subscriptions) == len(mapval(group.Members, k).Subscriptions) && len(mapval(out.Members, k).Assignments) == len(mapval(group.Members, k).Assignments)
 //@   loop 2 invariant forall k string, j int :: has(out.Members, k) && 0 <= j && j < len(mapval(out.Members, k).Subscriptions) ==> mapval(out.Members, k).Subscriptions[j] == mapval(group.Members, k).Subscriptions[j]
 //@   loop 2 invariant forall k string :: has(out.Members, k) ==> allocated(mapval(out.Members, k)) && allocated(mapval(out.Members, k).Subscriptions) && allocated(mapval(out.Members, k).Assignments)
-//@   loop 2 invariant has(group.Members, memberID) && member == mapval(group.Members, memberID) && member != nil && cloned != nil && fresh(cloned) && cloned.ClientId == member.ClientId && cloned.ClientHost == member.ClientHost && cloned.HeartbeatAt == member.HeartbeatAt && cloned.SessionTimeoutMs == member.SessionTimeoutMs && len(cloned.Subscriptions) == len(member.Subscriptions) && (len(cloned.Subscriptions) == 0 || fresh(cloned.Subscriptions)) && (forall j int :: 0 <= j && j < len(cloned.Subscriptions) ==> cloned.Subscriptions[j] == member.Subscriptions[j])
+//@   loop 2 invariant has(group.Members, memberID) && member == mapval(group.Members, memberID) && member != nil && !fresh(member) && cloned != nil && fresh(cloned) && cloned.ClientId == member.ClientId && cloned.ClientHost == member.ClientHost && cloned.HeartbeatAt == member.HeartbeatAt && cloned.SessionTimeoutMs == member.SessionTimeoutMs && len(cloned.Subscriptions) == len(member.Subscriptions) && (len(cloned.Subscriptions) == 0 || fresh(cloned.Subscriptions)) && (forall j int :: 0 <= j && j < len(cloned.Subscriptions) ==> cloned.Subscriptions[j] == member.Subscriptions[j])
 //@   loop 2 invariant -1 <= rangeidx(2) && rangeidx(2) < len(member.Assignments) && len(cloned.Assignments) == rangeidx(2) + 1 && fresh(cloned.Assignments)
 //@   loop 2 invariant forall i int :: 0 <= i && i < len(cloned.Assignments) ==> cloned.Assignments[i] != nil && fresh(cloned.Assignments[i])
